@@ -91,6 +91,12 @@ FieldPatterns == {
    <<"assigned-one-arm",       "Int",  <<>>,  <<Match(IntL(0), <<Arm(IntL(0), <<SetF(1)>>), Arm(Wild, <<Filler>>)>>)>>, "reject">>,
    <<"assigned-in-loop-only",  "Int",  <<>>,  <<For("i", R01, <<SetF(1)>>)>>,                      "reject">>,
    <<"read-in-branch-before",  "Int",  <<C>>, <<If(Var("c"), <<ReadF>>, <<>>), SetF(1)>>,          "reject">>,
+   \* a compound assignment reads the field: before the first assignment it is a read of an unassigned field, whatever follows
+   <<"aug-before-assigned",    "Int",  <<>>,  <<FAug("+", Var("self"), "fld", IntL(1)), SetF(0)>>,     "reject">>,
+   <<"first-assignment-reads-itself", "Int", <<>>, <<FAssign(Var("self"), "fld", Bin("+", Field(Var("self"), "fld"), IntL(1)))>>, "reject">>,
+   <<"aug-only",               "Int",  <<>>,  <<FAug("+", Var("self"), "fld", IntL(1))>>,              "reject">>,
+   <<"aug-after-assigned",     "Int",  <<>>,  <<SetF(0), FAug("+", Var("self"), "fld", IntL(1)), ReadF>>, "accept">>,
+   <<"aug-in-branch-before",   "Int",  <<C>>, <<If(Var("c"), <<FAug("*", Var("self"), "fld", IntL(2))>>, <<>>), SetF(1)>>, "reject">>,
    \* an assignment to the same-named field of ANOTHER object does not initialise this one
    <<"assigned-through-other-object", "Int", <<Param("o", "Peer", Absent)>>, <<FAssign(Var("o"), "fld", IntL(1))>>,          "reject">>,
    <<"read-after-other-assigned",     "Int", <<Param("o", "Peer", Absent)>>, <<FAssign(Var("o"), "fld", IntL(1)), ReadF, SetF(2)>>, "reject">>,
